@@ -25,6 +25,7 @@ func runC14(opt *Options) int {
 			kernelConverterLines("c14"),
 			{Name: "K4.parse", Pkg: "method", Harness: "VerifHarness_C14_Parse", Unwind: 16, MaxPaths: 30000000, Workers: 16, SetInts: map[string]int{"VerifC14MaxParams": maxParams, "VerifC14WideRegexParams": wideParams}},
 			{Name: "K4.notafunction", Pkg: "method", Harness: "VerifHarness_C14_NotAFunction", Unwind: 16},
+			{Name: "K4.functionvariable", Pkg: "method", Harness: "VerifHarness_C14_FunctionVariable", Unwind: 64},
 		},
 		Funcs:  []string{"method.Parse", "method.isError", "method.(*Definition).ArgDebug", "xtype.Accessible", "xtype.TypeOf"},
 		Bounds: "signatures with 0..2 (thorough: 0..3) parameters and 0..3 results; per parameter: plain / converter-typed / named like the update argument / matching arg:context:regex / listed as local context; per result: struct, error, int; options: ParamType / multi-source / AllowTypeParams / output package path symbolic (decided by the solver), update, context regex, converter type, exported, generic enumerated",
